@@ -30,15 +30,16 @@ Section Sim.
   Variable pool : list pentry.
 
   Definition dyn e r st out st' (c : code) :=
-    forall n s rs D prog brk,
+    forall n s rs D prog brk F,
+      ext st' F -> wfst F ->
       known_expr e = false ->
-      inv st D s rs -> (forall x, D x = true -> reads x e = false) ->
+      inv F D s rs -> (forall x, D x = true -> reads x e = false) ->
       dest_ok st r rs D e -> tbase st + tused st' <= N.of_nat (length rs) ->
       cares prog brk (ip st) c ->
       match eval n s e with
       | ONorm v s' =>
         exists rs', star pool prog (ip st) rs (ip st') rs' /\ length rs' = length rs /\
-                    inv st' (dirty st' r D) s' rs' /\
+                    inv F (dirty F r D) s' rs' /\
                     (forall ro, o_reg out = Some ro -> get rs' ro = Some v) /\
                     frame st st' r rs rs' e /\
                     (forall x, assigns x e = false -> s' x = s x)
@@ -91,6 +92,20 @@ Section Sim.
   Lemma slot_of_set_ip : forall st n x, slot_of (set_ip st n) x = slot_of st x.
   Proof. reflexivity. Qed.
 
+  (* writing a register that is a temporary, or a local all of whose owners are marked dirty *)
+  Lemma inv_setF : forall st F D s rs r v rs', inv F D s rs -> set rs r v = Some rs' ->
+    ext st F -> wfst F ->
+    (tbase st <= r \/ (r < nlocals st /\ forall x, slot_of F x = Some r -> D x = true)) ->
+    inv F D s rs'.
+  Proof.
+    intros st F D s rs r v rs' IV SET E WF H. eapply inv_set; eauto.
+    destruct H as [H|[H1 H2]]; [left; rewrite (ext_tbase _ _ E); assumption|right].
+    split; [pose proof (ext_len _ _ E); lia|assumption].
+  Qed.
+
+  Lemma dirty_self : forall F d D x, slot_of F x = Some d -> dirty F (RFixed d) D x = true.
+  Proof. intros. unfold dirty. rewrite H, N.eqb_refl. apply orb_true_r. Qed.
+
   (* constructs of the form: result <- assign_result_register; Set* result *)
   Lemma lit_case : forall e (mk : N -> instr) v,
     (forall r, comp pool e r =
@@ -118,7 +133,7 @@ Section Sim.
         * destruct r; cbn [shape]; destruct SH as (-> & SH); cbn [tcount set_ip]; try subst; auto;
             try (cbn in OR; discriminate).
           left. destruct SH. split; auto.
-      + intros n s rs D prog brk K IV RD DO B CA. destruct n; [exact Logic.I|]. rewrite HE.
+      + intros n s rs D prog brk F EF WF K IV RD DO B CA. destruct n; [exact Logic.I|]. rewrite HE.
         assert (RL : reg < N.of_nat (length rs)).
         { eapply RB; eauto. }
         destruct (set_ok rs reg v RL) as (rs' & SET).
@@ -128,15 +143,14 @@ Section Sim.
         splits.
         * cbn [ip set_ip]. apply star_one. exact ST.
         * eapply set_length; eauto.
-        * apply inv_set_ip.
-          assert (I1' : inv a (dirty (set_ip a (ip st + size (mk reg))) r D) s rs).
-          { eapply inv_weaken; [eapply inv_ext; eauto|]. intros. apply dirty_mono. assumption. }
-          eapply inv_set; eauto.
+        * assert (I1' : inv F (dirty F r D) s rs).
+          { eapply inv_weaken; [exact IV|]. intros. apply dirty_mono. assumption. }
+          eapply (inv_setF st); eauto.
+          { eapply ext_trans; [|exact EF]. eapply ext_trans; [exact E1|apply ext_set_ip]. }
           destruct r; destruct SH as (-> & SH); cbn in OR; try discriminate; inversion OR; subst.
-          -- left. destruct SH as (SH1 & SH2). rewrite T1. lia.
+          -- left. lia.
           -- destruct (DO _ eq_refl) as (_ & [Hd|[Hd _]] & _).
-             ++ right. split; [pose proof (ext_len _ _ E1); lia|].
-                intros x Sx. unfold dirty. rewrite slot_of_set_ip, Sx, N.eqb_refl. apply orb_true_r.
+             ++ right. split; [assumption|]. intros x Sx. apply dirty_self. assumption.
              ++ left. lia.
         * intros ro RO. assert (ro = reg) by congruence. subst. eapply get_set_same; eauto.
         * intros k K1 K2 K3. eapply get_set_other; eauto. intros ->.
@@ -148,10 +162,10 @@ Section Sim.
       split.
       + unfold facts. cbn [app code_size]. splits; try lia; auto.
         destruct r; cbn [shape]; destruct SH as (-> & SH); try subst; auto. cbn in OR. discriminate.
-      + intros n s rs D prog brk K IV RD DO B CA. destruct n; [exact Logic.I|]. rewrite HE.
+      + intros n s rs D prog brk F EF WF K IV RD DO B CA. destruct n; [exact Logic.I|]. rewrite HE.
         exists rs. rewrite I1. splits; auto.
         * constructor.
-        * eapply inv_weaken; [eapply inv_ext; eauto|]. intros. apply dirty_mono. assumption.
+        * eapply inv_weaken; [exact IV|]. intros. apply dirty_mono. assumption.
         * intros ro RO. destruct r; destruct SH as (-> & SH); cbn in OR, RO; discriminate.
         * intros k K1 K2 K3. reflexivity.
   Qed.
@@ -187,30 +201,30 @@ Section Sim.
     destruct r as [| |d].
     - unfold ret in H. inversion H; subst. split.
       + unfold facts. cbn. splits; auto using ext_refl. lia.
-      + intros n s rs D prog brk K IV RD DO B CA. destruct n; [exact Logic.I|]. cbn [eval].
+      + intros n s rs D prog brk F EF WF K IV RD DO B CA. destruct n; [exact Logic.I|]. cbn [eval].
         exists rs. splits; auto.
         * constructor.
-        * eapply inv_weaken; eauto. intros. apply dirty_mono. assumption.
+        * eapply inv_weaken; [exact IV|]. intros. apply dirty_mono. assumption.
         * cbn. discriminate.
         * intros k _ _ _. reflexivity.
     - unfold ret in H. inversion H; subst. split.
       + unfold facts. cbn [code_size shape]. splits; auto using ext_refl; try lia.
         right. exists x, l. cbn [out_var]. auto.
-      + intros n s rs D prog brk K IV RD DO B CA. destruct n; [exact Logic.I|]. cbn [eval].
+      + intros n s rs D prog brk F EF WF K IV RD DO B CA. destruct n; [exact Logic.I|]. cbn [eval].
         exists rs. splits; auto.
         * constructor.
-        * eapply inv_weaken; eauto. intros. apply dirty_mono. assumption.
-        * cbn. intros ro RO. inversion RO; subst. eapply inv_agree; eauto.
+        * eapply inv_weaken; [exact IV|]. intros. apply dirty_mono. assumption.
+        * cbn. intros ro RO. inversion RO; subst. eapply inv_agree; [exact IV|eapply ext_slot; eauto|].
           destruct (D x) eqn:Dx; [|reflexivity]. apply RD in Dx. cbn in Dx. rewrite N.eqb_refl in Dx. discriminate.
         * intros k _ _ _. reflexivity.
     - minv H. split.
       + unfold facts. cbn [app code_size size set_ip ip tcount shape]. splits; auto; try lia.
         * apply ext_set_ip.
         * apply wfst_set_ip. assumption.
-      + intros n s rs D prog brk K IV RD DO B CA. destruct n; [exact Logic.I|]. cbn [eval].
+      + intros n s rs D prog brk F EF WF K IV RD DO B CA. destruct n; [exact Logic.I|]. cbn [eval].
         destruct (DO _ eq_refl) as (DL & DR & DF).
         assert (GV : get rs l = Some (s x)).
-        { eapply inv_agree; eauto.
+        { eapply inv_agree; [exact IV|eapply ext_slot; [exact EF|exact SL]|].
           destruct (D x) eqn:Dx; [|reflexivity]. apply RD in Dx. cbn in Dx. rewrite N.eqb_refl in Dx. discriminate. }
         destruct (set_ok rs d (s x) DL) as (rs' & SET).
         exists rs'. cbn [app] in CA. apply cares_one in CA; [|reflexivity].
@@ -219,12 +233,12 @@ Section Sim.
         splits.
         * cbn [ip set_ip]. apply star_one. exact ST.
         * eapply set_length; eauto.
-        * apply inv_set_ip.
-          assert (I1' : inv st (dirty (set_ip st (ip st + size (ICopy d l))) (RFixed d) D) s rs).
-          { eapply inv_weaken; eauto. intros. apply dirty_mono. assumption. }
-          eapply inv_set; eauto.
+        * assert (I1' : inv F (dirty F (RFixed d) D) s rs).
+          { eapply inv_weaken; [exact IV|]. intros. apply dirty_mono. assumption. }
+          eapply (inv_setF st); eauto.
+          { eapply ext_trans; [apply ext_set_ip|exact EF]. }
           destruct DR as [Hd|[Hd _]]; [right|left; assumption]. split; [assumption|].
-          intros y Sy. unfold dirty. rewrite slot_of_set_ip, Sy, N.eqb_refl. apply orb_true_r.
+          intros y Sy. apply dirty_self. assumption.
         * cbn. intros ro RO. inversion RO; subst. eapply get_set_same; eauto.
         * intros k K1 K2 K3. eapply get_set_other; eauto. intros ->. apply K2. reflexivity.
         * intros. reflexivity.
@@ -233,11 +247,11 @@ Section Sim.
   Lemma nested_case : forall a, P a -> P (ENested a).
   Proof.
     intros a IH r st out st' c H W Dr. cbn [comp dropped] in *.
-    destruct (IH r st out st' c H W Dr) as (F & Dy). split.
-    - unfold facts, shape in *. cbn [out_var]. exact F.
-    - intros n s rs D prog brk K IV RD DO B CA. destruct n; [exact Logic.I|]. cbn [eval].
+    destruct (IH r st out st' c H W Dr) as (FF & Dy). split.
+    - unfold facts, shape in *. cbn [out_var]. exact FF.
+    - intros n s rs D prog brk F EF WF K IV RD DO B CA. destruct n; [exact Logic.I|]. cbn [eval].
       cbn [known_expr] in K.
-      specialize (Dy n s rs D prog brk K IV RD).
+      specialize (Dy n s rs D prog brk F EF WF K IV RD).
       assert (DO' : dest_ok st r rs D a).
       { intros d E. destruct (DO d E) as (A1 & A2 & A3). splits; auto. }
       specialize (Dy DO' B CA). destruct (eval n s a); auto.
@@ -316,12 +330,14 @@ Section Sim.
       + destruct r; cbn [shape]; cbn in Dn; try discriminate.
         * left. destruct SH as (-> & SH1 & SH2). split; [reflexivity|]. lia.
         * destruct SH as (-> & ->). split; [reflexivity|assumption].
-    - intros n s rs D prog brk K IV RD DO B CA. destruct n; [exact Logic.I|]. cbn [eval].
+    - intros n s rs D prog brk F EF WF K IV RD DO B CA. destruct n; [exact Logic.I|]. cbn [eval].
+      assert (EF2 : ext st2 F) by (eapply ext_trans; eauto).
+      assert (EF3 : ext st3 F) by (eapply ext_trans; eauto).
+      assert (EF0 : ext st F) by (eapply ext_trans; eauto).
       cbn [known_expr] in K. apply orb_false_elim in K as [K Kb]. apply orb_false_elim in K as [AL Ka].
       norm_code CA. apply cares_app in CA as [CA1 CA]. apply cares_app in CA as [CA2 CA3].
       assert (RL : reg < N.of_nat (length rs)).
       { eapply RB; eauto. pose proof (ext_used _ _ E1'). lia. }
-      assert (IV1 : inv st1 D s rs) by (eapply inv_ext; eauto).
       assert (RDa : forall x, D x = true -> reads x a = false).
       { intros x Dx. apply RD in Dx. cbn in Dx. apply orb_false_elim in Dx. tauto. }
       assert (RDb : forall x, D x = true -> reads x b = false).
@@ -329,14 +345,14 @@ Section Sim.
       assert (B1 : tbase st1 + tused st2 <= N.of_nat (length rs)).
       { pose proof (ext_used _ _ E2'). lia. }
       rewrite <- I1 in CA1.
-      specialize (DA n s rs D prog brk Ka IV1 RDa (dest_ok_any _ _ _ _) B1 CA1).
+      specialize (DA n s rs D prog brk F EF2 WF Ka IV RDa (dest_ok_any _ _ _ _) B1 CA1).
       destruct (eval n s a) as [va s1| | | |]; try contradiction; [|rewrite <- I1; exact DA|exact Logic.I].
       destruct DA as (rs1 & S1 & LN1 & IVa & RA & FRa & SFa).
       apply dirty_any in IVa.
       assert (B2 : tbase st2 + tused st3 <= N.of_nat (length rs1)).
       { pose proof (ext_used _ _ E3'). pose proof (ext_tbase _ _ EA). rewrite LN1. lia. }
       assert (CA2' : cares prog brk (ip st2) cb) by (rewrite IA, I1; exact CA2).
-      specialize (DB n s1 rs1 D prog brk Kb IVa RDb (dest_ok_any _ _ _ _) B2 CA2').
+      specialize (DB n s1 rs1 D prog brk F EF3 WF Kb IVa RDb (dest_ok_any _ _ _ _) B2 CA2').
       destruct (eval n s1 b) as [vb s2| | | |]; try contradiction;
         [|rewrite <- I1; eapply star_stops; [exact S1|exact DB]|exact Logic.I].
       destruct DB as (rs2 & S2 & LN2 & IVb & RBv & FRb & SFb).
@@ -359,17 +375,16 @@ Section Sim.
           -- apply star_one. exact ST.
           -- unfold st4 in I5. cbn [ip set_ip size] in *. lia.
         * rewrite (set_length _ _ _ _ SET). lia.
-        * assert (IV6 : inv st6 (dirty st6 r D) s2 rs2).
-          { eapply inv_weaken; [eapply inv_ext; eauto|]. intros. apply dirty_mono. assumption. }
-          eapply inv_set; eauto.
+        * assert (IV6 : inv F (dirty F r D) s2 rs2).
+          { eapply inv_weaken; [exact IVb|]. intros. apply dirty_mono. assumption. }
+          eapply (inv_setF st); eauto.
           destruct r; cbn in Dn; try discriminate.
           -- destruct SH as (-> & SH1 & SH2). cbn in OR. inversion OR; subst reg.
-             left. rewrite (ext_tbase _ _ E0'). lia.
+             left. lia.
           -- destruct SH as (-> & ->). cbn in OR. inversion OR; subst reg.
              destruct (DO _ eq_refl) as (_ & [Hd|[Hd _]] & _).
-             ++ right. split; [pose proof (ext_len _ _ E0'); lia|].
-                intros x Sx. unfold dirty. rewrite Sx, N.eqb_refl. apply orb_true_r.
-             ++ left. rewrite (ext_tbase _ _ E0'). assumption.
+             ++ right. split; [assumption|]. intros x Sx. apply dirty_self. assumption.
+             ++ left. assumption.
         * intros ro0 RO. assert (ro0 = reg) by congruence. subst. eapply get_set_same; eauto.
         * intros k K1 K2 K3.
           rewrite (get_set_other _ _ _ _ k SET).
@@ -415,6 +430,17 @@ Section Sim.
     destruct HR as [->|[HN HT]].
     - rewrite (ext_slot _ _ E24 _ _ S), N.eqb_refl. apply orb_true_r.
     - destruct (slot_of_id _ _ _ S) as (L & _). pose proof (wf_len _ W2). pose proof (ext_tbase _ _ E02). lia.
+  Qed.
+
+  Lemma dirty_absorbF : forall st F r reg D x,
+    ext st F -> wfst F ->
+    (r = RFixed reg \/ (dest r = None /\ tbase st <= reg)) ->
+    dirty F (RFixed reg) D x = true -> dirty F r D x = true.
+  Proof.
+    intros st F r reg D x E W HR H. destruct HR as [->|[HN HT]]; [exact H|].
+    unfold dirty in *. apply orb_true_iff in H as [H|H]; [rewrite H; reflexivity|].
+    destruct (slot_of F x) as [l|] eqn:S; [|discriminate]. apply N.eqb_eq in H. subst l.
+    destruct (slot_of_id _ _ _ S) as (L & _). pose proof (wf_len _ W). pose proof (ext_tbase _ _ E). lia.
   Qed.
 
   Lemma logic_case : forall o a b, P a -> P b -> P (ELogic o a b).
@@ -482,7 +508,10 @@ Section Sim.
         * destruct SH as (-> & _). cbn in C4. split; [reflexivity|lia].
         * destruct SH as (-> & _). cbn in C4. left. split; [reflexivity|lia].
         * destruct SH as (-> & _). cbn in C4. split; [reflexivity|lia].
-    - intros n s rs D prog brk K IV RD DO B CA. destruct n; [exact Logic.I|]. cbn [eval].
+    - intros n s rs D prog brk F EF WF K IV RD DO B CA. destruct n; [exact Logic.I|]. cbn [eval].
+      assert (EF2 : ext st2 F) by (eapply ext_trans; eauto).
+      assert (EF0 : ext st F) by (eapply ext_trans; eauto).
+      assert (EF3a : ext st3a F) by (eapply ext_trans; eauto).
       cbn [known_expr] in K. apply orb_false_elim in K as [Ka Kb].
       norm_code CA. apply cares_app in CA as [CA1 CA]. apply cares_cons in CA as [CAJ CA2]; [|unfold mkj; destruct o; reflexivity].
       assert (RDa : forall x, D x = true -> reads x a = false).
@@ -500,15 +529,14 @@ Section Sim.
       assert (FO : forall x, slot_of st x = Some reg ->
                              fixed_ok x a = true /\ reads x b = false /\ fixed_ok x b = true).
       { intros x Sx. destruct RK as [->|[_ HT]].
-        - destruct (DO _ eq_refl) as (_ & _ & F). specialize (F _ Sx). cbn in F.
-          apply andb_prop in F as [F F3]. apply andb_prop in F as [F1 F2]. apply negb_true_iff in F2. auto.
+        - destruct (DO _ eq_refl) as (_ & _ & FX). specialize (FX _ Sx). cbn in FX.
+          apply andb_prop in FX as [FX F3]. apply andb_prop in FX as [F1 F2]. apply negb_true_iff in F2. auto.
         - destruct (slot_of_id _ _ _ Sx) as (L & _). pose proof (wf_len _ W). lia. }
       assert (RPOS : reg < nlocals st \/ (tbase st <= reg /\ reg < tbase st1' + tcount st1')).
       { destruct RC as [(-> & ->)|[(-> & -> & -> & C1)|(-> & -> & C1 & ->)]].
         - destruct (DO _ eq_refl) as (_ & X & _). exact X.
         - right. lia.
         - right. lia. }
-      assert (IV1 : inv st1' D s rs) by (eapply inv_ext; eauto).
       assert (DOa : dest_ok st1' (RFixed reg) rs D a).
       { intros d Ed. inversion Ed; subst d. splits; auto.
         - destruct RPOS; [left; pose proof (ext_len _ _ E1'); lia|right; lia].
@@ -518,7 +546,7 @@ Section Sim.
       assert (B1 : tbase st1' + tused st2 <= N.of_nat (length rs)).
       { pose proof (ext_used _ _ E2'). lia. }
       rewrite <- I1' in CA1.
-      specialize (DA n s rs D prog brk Ka IV1 RDa DOa B1 CA1).
+      specialize (DA n s rs D prog brk F EF2 WF Ka IV RDa DOa B1 CA1).
       destruct (eval n s a) as [va s1| | | |]; try contradiction; [|rewrite <- I1'; exact DA|exact Logic.I].
       destruct DA as (rs1 & S1 & LN1 & IVa & RA & FRa & SFa).
       specialize (RA _ eq_refl).
@@ -528,14 +556,14 @@ Section Sim.
       pose proof (istep_at pool _ _ _ rs1 CAJ') as ST.
       (* the state after the whole construct, given the final register file *)
       assert (FIN : forall s' rs' v, length rs' = length rs ->
-                 inv st4 (dirty st4 r D) s' rs' -> get rs' reg = Some v ->
+                 inv F (dirty F r D) s' rs' -> get rs' reg = Some v ->
                  (forall k, k < tbase st + tcount st -> Some k <> dest r ->
                      (forall x, assigns x (ELogic o a b) = true -> slot_of st4 x <> Some k) ->
                      get rs' k = get rs k) ->
                  (forall x, assigns x (ELogic o a b) = false -> s' x = s x) ->
                  star pool prog (ip st) rs (ip st4) rs' ->
                  exists rs'0, star pool prog (ip st) rs (ip st4) rs'0 /\ length rs'0 = length rs /\
-                   inv st4 (dirty st4 r D) s' rs'0 /\
+                   inv F (dirty F r D) s' rs'0 /\
                    (forall ro, o_reg res = Some ro -> get rs'0 ro = Some v) /\
                    frame st st4 r rs rs'0 (ELogic o a b) /\
                    (forall x, assigns x (ELogic o a b) = false -> s' x = s x)).
@@ -549,13 +577,13 @@ Section Sim.
         - split; lia. }
       assert (SKIP : truthy va = match o with LAnd => false | LOr => true end ->
                  exists rs'0, star pool prog (ip st) rs (ip st4) rs'0 /\ length rs'0 = length rs /\
-                   inv st4 (dirty st4 r D) s1 rs'0 /\
+                   inv F (dirty F r D) s1 rs'0 /\
                    (forall ro, o_reg res = Some ro -> get rs'0 ro = Some va) /\
                    frame st st4 r rs rs'0 (ELogic o a b) /\
                    (forall x, assigns x (ELogic o a b) = false -> s1 x = s x)).
       { intros TV. apply (FIN s1 rs1 va); auto.
-        - eapply inv_weaken; [eapply inv_ext; [exact IVa|exact E2'|exact W4]|].
-          intros x Hx. eapply (dirty_absorb st st2 st4); eauto.
+        - eapply inv_weaken; [exact IVa|].
+          intros x Hx. eapply (dirty_absorbF st); eauto.
         - intros k K1 K2 K3. destruct (KLT k K1 K2) as (KN & KL). apply FRa; auto.
           + cbn. intros E. inversion E. congruence.
           + intros x AX. eapply slot_ext_neq; [exact E2'|]. apply K3. cbn. rewrite AX. reflexivity.
@@ -567,7 +595,7 @@ Section Sim.
       assert (CONT : truthy va = match o with LAnd => true | LOr => false end ->
                  match eval n s1 b with
                  | ONorm v s' => exists rs'0, star pool prog (ip st) rs (ip st4) rs'0 /\ length rs'0 = length rs /\
-                     inv st4 (dirty st4 r D) s' rs'0 /\
+                     inv F (dirty F r D) s' rs'0 /\
                      (forall ro, o_reg res = Some ro -> get rs'0 ro = Some v) /\
                      frame st st4 r rs rs'0 (ELogic o a b) /\
                      (forall x, assigns x (ELogic o a b) = false -> s' x = s x)
@@ -580,16 +608,16 @@ Section Sim.
         { eapply star_trans; [rewrite <- I1'; exact S1|].
           apply star_one. rewrite ST. unfold mkj. destruct o; cbn [exec]; unfold with_reg; rewrite RA, TV;
             f_equal; rewrite IP2a; cbn [size]; lia. }
-        set (D2 := dirty st2 (RFixed reg) D).
-        assert (IV2 : inv st2a D2 s1 rs1) by (apply inv_set_ip; exact IVa).
+        set (D2 := dirty F (RFixed reg) D).
+        assert (IV2 : inv F D2 s1 rs1) by exact IVa.
         assert (RD2 : forall x, D2 x = true -> reads x b = false).
         { intros x Hx. unfold D2, dirty in Hx. apply orb_true_iff in Hx as [Hx|Hx]; [auto|].
-          destruct (slot_of st2 x) as [l|] eqn:S; [|discriminate]. apply N.eqb_eq in Hx. subst l.
+          destruct (slot_of F x) as [l|] eqn:S; [|discriminate]. apply N.eqb_eq in Hx. subst l.
           destruct RPOS as [RP|RP].
-          - apply (slot_of_old st st2) in S; [|exact E02|assumption].
+          - apply (slot_of_old st F) in S; [|exact EF0|assumption].
             apply FO; assumption.
-          - destruct (slot_of_id _ _ _ S) as (L & _). pose proof (wf_len _ WA).
-            pose proof (ext_tbase _ _ EA). lia. }
+          - destruct (slot_of_id _ _ _ S) as (L & _). pose proof (wf_len _ WF).
+            pose proof (ext_tbase _ _ EF0). lia. }
         assert (DOb : dest_ok st2a (RFixed reg) rs1 D2 b).
         { intros d Ed. inversion Ed; subst d. splits.
           - rewrite LN1. exact RL.
@@ -604,23 +632,19 @@ Section Sim.
         { pose proof (ext_used _ _ E4). pose proof (ext_tbase _ _ EA). rewrite LN1. unfold st2a. cbn [tbase set_ip]. lia. }
         assert (CA2' : cares prog brk (ip st2a) cb).
         { rewrite IP2a, IA, I1'. rewrite SZ in CA2. exact CA2. }
-        specialize (DB n s1 rs1 D2 prog brk Kb IV2 RD2 DOb B2 CA2').
+        specialize (DB n s1 rs1 D2 prog brk F EF3a WF Kb IV2 RD2 DOb B2 CA2').
         destruct (eval n s1 b) as [vb s2| | | |]; try contradiction;
           [|eapply star_stops; [exact S2a|exact DB]|exact Logic.I].
         destruct DB as (rs2 & S2 & LN2 & IVb & RBv & FRb & SFb).
         specialize (RBv _ eq_refl).
         apply (FIN s2 rs2 vb); auto.
         - lia.
-        - eapply inv_weaken; [eapply inv_ext; [exact IVb|exact E4|exact W4]|].
+        - eapply inv_weaken; [exact IVb|].
           intros x Hx.
-          assert (HD2 : forall y, D2 y = true -> dirty st4 r D y = true).
-          { intros y Hy. eapply (dirty_absorb st st2 st4); eauto. }
+          assert (HD2 : forall y, D2 y = true -> dirty F r D y = true).
+          { intros y Hy. eapply (dirty_absorbF st); eauto. }
           unfold dirty in Hx. apply orb_true_iff in Hx as [Hx|Hx]; [apply HD2; exact Hx|].
-          destruct (slot_of st3a x) as [l|] eqn:S; [|discriminate]. apply N.eqb_eq in Hx. subst l.
-          destruct RK as [->|[HN HT]].
-          + unfold dirty. rewrite (ext_slot _ _ E4 _ _ S), N.eqb_refl. apply orb_true_r.
-          + destruct (slot_of_id _ _ _ S) as (L & _). pose proof (wf_len _ WB).
-            pose proof (ext_tbase _ _ EB). pose proof (ext_tbase _ _ EA). unfold st2a in *. cbn [tbase set_ip] in *. lia.
+          apply HD2. unfold D2, dirty. rewrite Hx. apply orb_true_r.
         - intros k K1 K2 K3. destruct (KLT k K1 K2) as (KN & KL).
           rewrite FRb.
           + apply FRa; auto.
@@ -667,13 +691,13 @@ Section Sim.
     pose proof (ext_slot _ _ E3 _ _ S2) as S3.
     assert (LPOS : l < nlocals st1) by (destruct (slot_of_id _ _ _ S1); assumption).
     (* everything up to the commit, for any final register file *)
-    assert (CORE : forall n s rs D prog brk,
-      known_expr (EAssign x a) = false -> inv st D s rs ->
+    assert (CORE : forall n s rs D prog brk F, ext st3 F -> wfst F ->
+      known_expr (EAssign x a) = false -> inv F D s rs ->
       (forall y, D y = true -> reads y (EAssign x a) = false) ->
       tbase st + tused st3 <= N.of_nat (length rs) -> cares prog brk (ip st) ca ->
       match eval n s a with
       | ONorm v s1 => exists rs1, star pool prog (ip st) rs (ip st3) rs1 /\ length rs1 = length rs /\
-           inv st3 D (upd s1 x v) rs1 /\ get rs1 l = Some v /\
+           inv F D (upd s1 x v) rs1 /\ get rs1 l = Some v /\
            (forall k, k < tbase st + tcount st -> k <> l ->
               (forall y, assigns y a = true -> slot_of st3 y <> Some k) -> get rs1 k = get rs k) /\
            (forall y, assigns y (EAssign x a) = false -> upd s1 x v y = s y)
@@ -681,9 +705,9 @@ Section Sim.
       | OFuel => True
       | _ => False
       end).
-    { intros n s rs D prog brk K IV RD B CA. cbn [known_expr] in K. apply orb_false_elim in K as [FX Ka].
+    { intros n s rs D prog brk F EF WF K IV RD B CA. cbn [known_expr] in K. apply orb_false_elim in K as [FX Ka].
       apply negb_false_iff in FX.
-      assert (IV1 : inv st1 D s rs) by (eapply inv_ext; eauto).
+      assert (EF2 : ext st2 F) by (eapply ext_trans; eauto).
       assert (DOa : dest_ok st1 (RFixed l) rs D a).
       { intros d Ed. inversion Ed; subst d. splits.
         - pose proof (wf_len _ W1). pose proof (ext_tbase _ _ E1). lia.
@@ -692,17 +716,13 @@ Section Sim.
       assert (B1 : tbase st1 + tused st2 <= N.of_nat (length rs)).
       { pose proof (ext_tbase _ _ E1). pose proof (ext_used _ _ E3). lia. }
       rewrite <- I1 in CA.
-      specialize (DA n s rs D prog brk Ka IV1 RD DOa B1 CA).
+      specialize (DA n s rs D prog brk F EF2 WF Ka IV RD DOa B1 CA).
       destruct (eval n s a) as [va s1| | | |]; try contradiction; [|rewrite <- I1; exact DA|exact Logic.I].
       destruct DA as (rs1 & St & LN & IVa & RA & FRa & SFa).
       specialize (RA _ eq_refl).
       exists rs1. splits; auto.
       - rewrite <- I1, I3. exact St.
-      - eapply inv_assign_dirty; eauto.
-        eapply inv_weaken; [eapply inv_ext; [exact IVa|exact E3|exact W3]|].
-        intros y Hy. unfold dirty in *. apply orb_true_iff in Hy as [Hy|Hy]; [rewrite Hy; reflexivity|].
-        destruct (slot_of st2 y) as [ly|] eqn:Sy; [|discriminate].
-        rewrite (ext_slot _ _ E3 _ _ Sy), Hy. apply orb_true_r.
+      - eapply inv_assign_dirty; [exact IVa|eapply ext_slot; [exact EF|exact S3]|exact RA].
       - intros k K1 K2 K3. apply FRa.
         + rewrite (ext_tbase _ _ E1), C1. exact K1.
         + cbn. intros E. inversion E. congruence.
@@ -716,8 +736,8 @@ Section Sim.
         * rewrite !code_size_app. cbn [code_size]. lia.
         * eapply ext_trans; [exact E1|eapply ext_trans; eauto].
         * cbn [shape]. split; [reflexivity|lia].
-      + intros n s rs D prog brk K IV RD DO B CA. destruct n; [exact Logic.I|]. cbn [eval].
-        norm_code CA. specialize (CORE n s rs D prog brk K IV RD B CA).
+      + intros n s rs D prog brk F EF WF K IV RD DO B CA. destruct n; [exact Logic.I|]. cbn [eval].
+        norm_code CA. specialize (CORE n s rs D prog brk F EF WF K IV RD B CA).
         destruct (eval n s a) as [va s1| | | |]; auto.
         destruct CORE as (rs1 & St & LN & IVf & G & FR & SF).
         exists rs1. splits; auto.
@@ -732,8 +752,8 @@ Section Sim.
         * rewrite !code_size_app. cbn [code_size]. lia.
         * eapply ext_trans; [exact E1|eapply ext_trans; eauto].
         * cbn [shape]. right. exists x, l. splits; auto. lia.
-      + intros n s rs D prog brk K IV RD DO B CA. destruct n; [exact Logic.I|]. cbn [eval].
-        norm_code CA. specialize (CORE n s rs D prog brk K IV RD B CA).
+      + intros n s rs D prog brk F EF WF K IV RD DO B CA. destruct n; [exact Logic.I|]. cbn [eval].
+        norm_code CA. specialize (CORE n s rs D prog brk F EF WF K IV RD B CA).
         destruct (eval n s a) as [va s1| | | |]; auto.
         destruct CORE as (rs1 & St & LN & IVf & G & FR & SF).
         exists rs1. splits; auto.
@@ -751,8 +771,8 @@ Section Sim.
           -- rewrite !code_size_app. cbn [code_size]. lia.
           -- eapply ext_trans; [exact E1|eapply ext_trans; eauto].
           -- cbn [shape]. split; [reflexivity|lia].
-        * intros n s rs D prog brk K IV RD DO B CA. destruct n; [exact Logic.I|]. cbn [eval].
-          norm_code CA. specialize (CORE n s rs D prog brk K IV RD B CA).
+        * intros n s rs D prog brk F EF WF K IV RD DO B CA. destruct n; [exact Logic.I|]. cbn [eval].
+          norm_code CA. specialize (CORE n s rs D prog brk F EF WF K IV RD B CA).
           destruct (eval n s a) as [va s1| | | |]; auto.
           destruct CORE as (rs1 & St & LN & IVf & G & FR & SF).
           exists rs1. splits; auto.
@@ -767,10 +787,11 @@ Section Sim.
           -- eapply ext_trans; [exact E1|eapply ext_trans; [exact EA|eapply ext_trans; [exact E3|apply ext_set_ip]]].
           -- apply wfst_set_ip. assumption.
           -- cbn [shape tcount set_ip]. split; [reflexivity|lia].
-        * intros n s rs D prog brk K IV RD DO B CA. destruct n; [exact Logic.I|]. cbn [eval].
+        * intros n s rs D prog brk F EF WF K IV RD DO B CA. destruct n; [exact Logic.I|]. cbn [eval].
           norm_code CA. apply cares_app in CA as [CA1 CA2].
           assert (B' : tbase st + tused st3 <= N.of_nat (length rs)) by exact B.
-          specialize (CORE n s rs D prog brk K IV RD B' CA1).
+          assert (EF3 : ext st3 F) by (eapply ext_trans; [apply ext_set_ip|exact EF]).
+          specialize (CORE n s rs D prog brk F EF3 WF K IV RD B' CA1).
           destruct (eval n s a) as [va s1| | | |]; auto.
           destruct CORE as (rs1 & St & LN & IVf & G & FR & SF).
           destruct (DO _ eq_refl) as (DLN & DPOS & _).
@@ -784,15 +805,14 @@ Section Sim.
           exists rs2. splits.
           -- eapply star_trans; [exact St|]. apply star_one. exact ST.
           -- rewrite (set_length _ _ _ _ SET). exact LN.
-          -- apply inv_set_ip.
-             assert (IV4 : inv st3 (dirty st4 (RFixed d) D) (upd s1 x va) rs1).
-             { eapply inv_weaken; eauto. intros. apply dirty_mono. assumption. }
-             eapply inv_set; eauto.
+          -- assert (IV4 : inv F (dirty F (RFixed d) D) (upd s1 x va) rs1).
+             { eapply inv_weaken; [exact IVf|]. intros. apply dirty_mono. assumption. }
              assert (E03 : ext st st3) by (eapply ext_trans; [exact E1|eapply ext_trans; eauto]).
+             eapply (inv_setF st); eauto.
+             { eapply ext_trans; [exact E03|exact EF3]. }
              destruct DPOS as [Hd|[Hd _]].
-             ++ right. split; [pose proof (ext_len _ _ E03); lia|].
-                intros y Sy. unfold dirty. unfold st4. rewrite slot_of_set_ip, Sy, N.eqb_refl. apply orb_true_r.
-             ++ left. rewrite (ext_tbase _ _ E03). assumption.
+             ++ right. split; [assumption|]. intros y Sy. apply dirty_self. assumption.
+             ++ left. assumption.
           -- cbn. intros ro RO. inversion RO; subst. eapply get_set_same; eauto.
           -- intros k K1 K2 K3. rewrite (get_set_other _ _ _ _ k SET).
              ++ apply FR; auto.
